@@ -601,6 +601,156 @@ def check_slice(case):
     return {'nt': nt, 'cls': ['exhaustive-slice:' + case['target']]}
 
 
+# ---------------------------------------------------------------------------------------------
+# selection on grow-only containers straight after growth (no read in between), differential against a static
+# container built afresh with the same content: the addressed rows/columns must be the same
+
+# (Hypothesis favours the first entries of sampled_from: the partial-date and container-shaped keys come first)
+GO_KEYS = ('month', 'month_dt64', 'list', 'year', 'pydate', 'month_slice', 'slice', 'bool', 'list_dates_str', 'slice_open', 'contains',
+           'label_last', 'label_mid', 'iloc_neg_slice', 'label_first', 'iloc_last')
+
+
+@st.composite
+def go_cases(draw):
+    # the choices that decide *what* is exercised are drawn first: Hypothesis extends a random prefix with minimal
+    # choices for a share of its examples, which would pin late draws to their first option
+    kind = draw(st.sampled_from(['date', 'date', 'str', 'int']))
+    key = draw(st.sampled_from(GO_KEYS if kind == 'date' else [k for k in GO_KEYS if k not in ('month', 'month_dt64', 'year', 'pydate', 'month_slice', 'list_dates_str')]))
+    route = draw(st.sampled_from(['getitem', 'loc', 'index']))
+    how = draw(st.sampled_from(['setitem', 'extend_series', 'index_append']))
+    read_before = draw(st.sampled_from(['none', 'values', 'len', 'repr', 'loc']))
+    i, j, mask = draw(st.integers(0, 20)), draw(st.integers(0, 20)), draw(st.integers(1, 2 ** 7))
+    m0 = draw(st.integers(0, 3))
+    grow = draw(st.integers(1, 3))
+    total = m0 + grow
+    if kind == 'date':
+        offs = sorted(draw(st.lists(st.integers(0, 75), min_size=total, max_size=total, unique=True)))
+        labels = [np.datetime64('2020-01-20', 'D') + np.timedelta64(o, 'D') for o in offs]
+    elif kind == 'str':
+        labels = sorted(draw(st.lists(st.text(alphabet='abcde', min_size=1, max_size=2), min_size=total, max_size=total, unique=True)))
+    else:
+        labels = sorted(draw(st.lists(st.integers(-5, 30), min_size=total, max_size=total, unique=True)))
+    if draw(st.booleans()):
+        labels = draw(st.permutations(labels))
+    return {'kind': kind, 'labels': list(labels), 'm0': m0, 'read_before': read_before, 'how': how, 'key': key, 'i': i, 'j': j, 'mask': mask, 'route': route}
+
+
+def _go_key(case, labels):
+    kind, k = case['kind'], case['key']
+    n = len(labels)
+    i, j = case['i'] % n, case['j'] % n
+    if k == 'label_last':
+        return labels[-1]
+    if k == 'label_first':
+        return labels[0]
+    if k == 'label_mid':
+        return labels[i]
+    if k == 'list':
+        pos = [p for p in range(n) if (case['mask'] >> p) & 1] or [n - 1]
+        return [labels[p] for p in pos]
+    if k == 'bool':
+        return np.array([bool((case['mask'] >> p) & 1) for p in range(n)])
+    if k in ('slice', 'slice_open'):
+        lo, hi = sorted((i, j))
+        return slice(labels[lo], None if k == 'slice_open' else labels[hi])
+    if k == 'iloc_last':
+        return sf.ILoc[-1]
+    if k == 'iloc_neg_slice':
+        return sf.ILoc[-(i % n + 1):]
+    if k == 'contains':
+        return ('contains', labels[-1])
+    if kind != 'date':
+        return labels[-1]
+    lab = labels[-1] if i % 2 else labels[i]
+    if k == 'month':
+        return str(lab)[:7]
+    if k == 'month_dt64':
+        return np.datetime64(str(lab)[:7], 'M')
+    if k == 'year':
+        return str(lab)[:4]
+    if k == 'pydate':
+        return lab.astype(datetime.date)
+    if k == 'month_slice':
+        return slice(str(min(labels))[:7], str(max(labels))[:7])
+    if k == 'list_dates_str':
+        return [str(labels[-1]), str(labels[0])] if n > 1 else [str(labels[-1])]
+    return lab
+
+
+def check_go(case):
+    kind, labels, m0 = case['kind'], case['labels'], case['m0']
+    n = len(labels)
+    ix_cls, ixgo_cls = (sf.IndexDate, sf.IndexDateGO) if kind == 'date' else (sf.Index, sf.IndexGO)
+    vals = [np.arange(3) + 10 * q for q in range(n)]
+    standalone = case['how'] == 'index_append' or case['route'] == 'index'
+    if standalone:
+        go = ixgo_cls(labels[:m0])
+    else:
+        go = sf.FrameGO.from_items(list(zip(labels[:m0], vals[:m0])), index=('r0', 'r1', 'r2'), columns_constructor=ixgo_cls) if m0 else sf.FrameGO(index=('r0', 'r1', 'r2'), columns=ixgo_cls(()))
+    tgt_ix = go if standalone else go.columns
+    rb = case['read_before']
+    if rb == 'values':
+        tgt_ix.values
+    elif rb == 'len':
+        len(tgt_ix)
+    elif rb == 'repr':
+        repr(go)
+    elif rb == 'loc' and m0:
+        tgt_ix.loc_to_iloc(labels[0])
+    for q in range(m0, n):
+        if standalone:
+            go.append(labels[q])
+        elif case['how'] == 'setitem':
+            go[labels[q]] = vals[q]
+        else:
+            go.extend(sf.Series(vals[q], index=go.index, name=labels[q]))
+    # no read of the grown container before the selection
+    key = _go_key(case, labels)
+    if standalone:
+        static = ix_cls(labels)
+    else:
+        static = sf.Frame.from_items(list(zip(labels, vals)), index=('r0', 'r1', 'r2'), columns_constructor=ix_cls)
+
+    def select(c):
+        if isinstance(key, tuple) and key and key[0] == 'contains':
+            return key[1] in (c if standalone else c.columns)
+        if standalone:
+            return c.loc_to_iloc(key) if case['route'] != 'loc' else c.loc[key]
+        if case['route'] == 'loc':
+            return c.loc[:, key]
+        return c[key] if not isinstance(key, sf.ILoc) else c.loc[:, key]
+    want = lib(select, static)
+    got = lib(select, go)
+    what = '%s %s key %s after %s of %d labels onto %d (read before: %s)' % ('index' if standalone else 'FrameGO', case['route'], short(key, 80), case['how'], n - m0, m0, rb)
+    if isinstance(want, Raised):
+        if not isinstance(got, Raised):
+            raise Failure('no-raise', '%s: the static twin raised %s, the grown container returned %s' % (what, want.cls, short(got, 120)))
+        return {'nt': False, 'cls': ['go-key:' + case['key'], 'go-both-raise']}
+    if isinstance(got, Raised):
+        raise Failure('raised:%s' % got.cls, '%s raised %r; the static twin returned %s' % (what, got.exc, short(want, 120)), got.where)
+
+    def norm(x):
+        if isinstance(x, (sf.Frame, sf.Series, sf.Index)):
+            sn = obs.snap(x)
+            return (sn[0],) + tuple(sn[2:])  # without the class name (grow-only vs static)
+        if isinstance(x, np.ndarray):
+            return ('A', x.tolist())
+        if isinstance(x, slice):
+            return ('slice', x.start, x.stop, x.step)
+        return ('E', canon(x) if not isinstance(x, (list, tuple)) else [canon(e) for e in x])
+    if norm(got) != norm(want):
+        raise Failure('go-differs', '%s: grown container gives %s, static twin gives %s' % (what, short(norm(got), 200), short(norm(want), 200)))
+    # and again after the container has been read (the result must not depend on the read either)
+    if not standalone:
+        go.columns.values
+    else:
+        go.values
+    got2 = lib(select, go)
+    if isinstance(got2, Raised) or norm(got2) != norm(want):
+        raise Failure('go-differs', '%s: after a read, grown container gives %s, static twin gives %s' % (what, short(got2, 200), short(norm(want), 200)))
+    return {'nt': True, 'cls': ['go-key:' + case['key'], 'go-kind:' + kind, 'go-route:' + ('index' if standalone else case['route']), 'go-read-before:' + rb]}
+
+
 EXHAUSTIVE = {'quick': False, 'thorough': False}
 
 
@@ -615,6 +765,8 @@ SUBS = [
         rule='Series iloc/loc/getitem vs list model'),
     Sub('bloc', bloc_cases(), check_bloc, quick=500, thorough=8000,
         rule='Frame.bloc vs {(row,col): value} mapping'),
+    Sub('go_selection', go_cases(), check_go, quick=1500, thorough=32000,
+        rule='selection on grow-only frames / indices straight after growth (16 key forms incl. partial dates) vs the same selection on a static twin'),
     Sub('slices_exhaustive', None, check_slice, quick=0, thorough=0, enum=enum_slices,
         rule='complete enumeration of positional slices on small axes (exhaustive sub-domain)'),
 ]
